@@ -12,12 +12,16 @@ Record case19 := mkCase19 {
   d_class : oclass;                       (* observed outcome of `edit fix` *)
   d_after : file;                         (* observed file afterwards *)
   d_after_k : res kust;                   (* observed Unmarshal of it *)
-  d_render : list (string * list line)    (* yaml.Marshal of each one-field struct of d_after_k *)
+  d_render : list (string * list line);   (* yaml.Marshal of each one-field struct of d_after_k *)
+  d_vars : option vars_oracle             (* Some: the command was `edit fix --vars`, with the conversion oracle *)
 }.
 
 Definition diag19 (c : case19) : list string :=
   let f := d_file c in
-  match fix_cmd (d_env c) (do k <- d_k c; Ok (fix_kustomization k)) with
+  match (match d_vars c with
+         | None => fix_cmd (d_env c) (do k <- d_k c; Ok (fix_kustomization k))
+         | Some vo => fix_vars_cmd (d_env c) (do k <- d_k c; Ok (fix_kustomization k)) vo
+         end) with
   | Ok (Some k') =>
       let R := tbl_render (d_render c) in
       let d1 := if oclass_eqb COk (d_class c) then [] else ["class"] in
